@@ -477,14 +477,17 @@ fn stream_c02(ctx: &mut Ctx, rng: &mut ChaCha20Rng) {
             ctx.skipped("point-replaced", "perturbed claim is still true (constant polynomials / no other point)");
         }
     }
-    {
-        let i = below(rng, npolys);
+    // every list position in turn (a zero or constant polynomial may sit at any of them)
+    for i in 0..npolys {
         let (q, _) = stream_poly(&w, rng);
         if pts.iter().enumerate().any(|(j, x)| eval_le(&q, x) != evals[i][j]) {
             let mut c2 = comms.clone();
             c2[i] = w.ck.commit(&q);
             let o = vr(guard(|| w.vk.verify_multi_points(&c2, &pts, &evals, &pf, &eta).is_ok()));
-            not_accept(ctx, &o, "commitment-replaced", "streaming::verify_multi_points", mdesc);
+            let mut dj = mdesc.clone();
+            dj["position"] = json!(i);
+            dj["replaced_is_zero_polynomial"] = json!(polys[i].iter().all(|c| c.is_zero()));
+            not_accept(ctx, &o, "commitment-replaced", "streaming::verify_multi_points", dj);
         }
     }
 }
